@@ -54,6 +54,7 @@ class Frames(Hooks):
         self.stores = []
         self.compares = []
         self.unit_errors = []
+        self.clamps = []         # (eid, key, frame set the location held) for stores of the constant 0 over a typed value
         self.field_stores = []   # (eid, unit of the field, unit set stored) for stores to FIELD_UNITS fields
         self.reads = []          # (call eid, unit set of the count argument) for vorbis_synthesis_read
         self.loops = absint.cfg.loops(F)
@@ -469,6 +470,8 @@ class Frames(Hooks):
             if cv == 0:
                 f = fr[key]
                 u = un.get(key)
+                if A.final:
+                    self.clamps.append((e, key, f))
         if f is None:
             fr.pop(key, None)
         else:
@@ -599,6 +602,47 @@ def c07(chk, P):
                    '(Gs = raw granule position, Rl:L = relative to link L, "!a+b" = ill-typed sum): on some path the initial granule '
                    'offset of the link is not subtracted, or the lengths of the earlier links are not added')
     chk.floor('R07.5', 4)
+
+
+def r07_11(chk, P):
+    chk.rule('R07.11', 'a position is clamped at the start of its link, not at the start of the file: wherever vorbisfile.c replaces a '
+             'negative sample position by 0 (a store of the constant 0 controlled by a `< 0` test of the same location), the '
+             'location holds a link-relative value or a duration (frames Rl:L, Len, Gs) -- never a whole-stream position Pg, to '
+             'which the lengths of the earlier links have already been added: in a link other than the first a value that fell '
+             'below the link start is still positive there, escapes the clamp, and the position reported after the seek lies in '
+             'the previous link')
+    from rules import common
+    n = 0
+    for F in _pcm_offset_writers(P):
+        A, h, exits = _run(P, F)
+        seen = set()
+        for (e, key, f) in h.clamps:
+            if e in seen:
+                continue
+            nd = F.ex[e]
+            if nd['k'] != 'assign':
+                continue
+            tgt = F.s(F.strip_casts(nd['c'][0]))
+            conds = common.controlling_conditions(F, e)
+            neg = False
+            for c, pol in conds:
+                cn = F.ex[F.strip_casts(c)]
+                if cn['k'] == 'bin' and cn['op'] == '<' and pol and F.s(F.strip_casts(cn['c'][0])) == tgt and common.const_val(F, cn['c'][1]) == 0:
+                    neg = True
+            if not neg:
+                continue
+            seen.add(e)
+            allf = set()
+            for (e2, k2_, f2) in h.clamps:
+                if e2 == e:
+                    allf |= set(f2)
+            bad = [x for x in allf if x == 'Pg' or x == 'Tot']
+            n += 1
+            chk.ob('R07.11', P.key(F), f'zero-clamp-in-link-frame@{F.loc(e)}', not bad, F.where(e),
+                   f'`{F.s(e)}` clamps a value of frame {sorted(allf)}' if not bad else
+                   f'`{F.s(e)}` clamps a whole-stream position (frame {sorted(allf)}): the earlier links\' lengths are already added, '
+                   'so a position that fell below the start of a later link is not caught')
+    return n
 
 
 def c08(chk, P):
